@@ -114,12 +114,18 @@ func vpH_conf_Propose_3()       { vpConfProposal(3, []int{0, 1}) }
 // C10-G4: ApplyConfChange installs exactly the Changer's result
 // ---------------------------------------------------------------------------
 
+// vpApplyConfPeers: keep the peers' replication state symbolic even for one change
+var vpApplyConfPeers bool
+
+// vpApplyConfRemove: when non-zero the change is fixed to "remove this voter" (simple)
+var vpApplyConfRemove uint64
+
 func vpApplyConf(role StateType, shapes []int, maxN int) {
 	o := vpDefaultOpts(role)
 	o.shapes = shapes
 	o.plainData = true
 	o.ls, o.lu = 0, 1
-	if maxN <= 1 {
+	if maxN <= 1 && !vpApplyConfPeers {
 		// quick bound: only the leader's own Match is symbolic (the peers are as
 		// reset() leaves them), so a commit advance needs the new configuration
 		// to make the leader alone a quorum
@@ -127,9 +133,16 @@ func vpApplyConf(role StateType, shapes []int, maxN int) {
 	}
 	nd := vpBuild(o)
 	r := nd.r
-	tr := vpChoose(3)
+	tr := 0
+	n := 0
+	if vpApplyConfRemove == 0 {
+		tr = vpChoose(3)
+		n = vpChoose(maxN + 1)
+	}
 	cc := &pb.ConfChangeV2{Transition: new(pb.ConfChangeTransition(tr))}
-	n := vpChoose(maxN + 1)
+	if vpApplyConfRemove != 0 {
+		cc.Changes = append(cc.Changes, &pb.ConfChangeSingle{Type: pb.ConfChangeRemoveNode.Enum(), NodeId: new(vpApplyConfRemove)})
+	}
 	for j := 0; j < n; j++ {
 		t := []pb.ConfChangeType{pb.ConfChangeAddNode, pb.ConfChangeRemoveNode, pb.ConfChangeAddLearnerNode}[vpChoose(3)]
 		id := uint64(1 + vpChoose(4))
@@ -201,6 +214,21 @@ func vpApplyConf(role StateType, shapes []int, maxN int) {
 
 func vpH_conf_Apply_L()  { vpApplyConf(StateLeader, []int{0, 1, 7}, 1) }
 func vpH_conf_Apply_F()  { vpApplyConf(StateFollower, []int{0, 1, 7, 4}, 1) }
+// one change on a leader whose peers have symbolic progress: removing a lagging
+// voter (or leaving a joint configuration) can advance the commit index
+func vpH_conf_Apply_L_commit() {
+	vpApplyConfPeers = true
+	vpApplyConfRemove = 3
+	vpApplyConf(StateLeader, []int{0}, 1)
+}
+
+// removing the only other voter makes the leader's own durable log the quorum
+func vpH_conf_Apply_L_commit_single() {
+	vpApplyConfPeers = true
+	vpApplyConfRemove = 2
+	vpApplyConf(StateLeader, []int{9}, 1)
+}
+
 func vpH_conf_Apply_L2() { vpApplyConf(StateLeader, []int{0, 1}, 2) }
 func vpH_conf_Apply_F2() { vpApplyConf(StateFollower, []int{0, 1, 7, 4}, 2) }
 
